@@ -6,3 +6,4 @@ Definition k_flow_writer_init : pfun :=
     SSetAttr "self" "_tag" (PName "tag");
     SSetAttr "self" "_parent" (PName "parent")
   ] |}.
+Definition k_flow_writer_init_defaults : list (string * pexp) := [("tag", PNone); ("parent", PNone)].
